@@ -246,6 +246,7 @@ def _vf_body(self, name, args):
             if k == "next":
                 self.next_state(tgt)
             else:
+                self._vf_log.append(("now", name, act[1]))
                 self.next_state_now(tgt)
 
 
@@ -368,18 +369,20 @@ def _compare_calls(pred, calls, obs_calls, now, m_after):
     on = [o[0] for o in obs_calls]
     if pn != on:
         preg = [c["name"] for c in calls if c["kind"] == "regular"]
-        dname = next((c["name"] for c in pred.calls if c["kind"] == "default"), None)
+        dname = pred.default_name
         oreg = [x for x in on if x != dname]
-        if len(preg) != len(oreg):
+        props = set()
+        if bool(preg) != bool(oreg):
+            # a regular state ran although the machine must be stopped / did not run although it must
             props = {"C01"}
-            if not preg and oreg:
+            if oreg and pred.stopped_before:
                 props.add("C04")
+        elif preg and preg[0] != oreg[0]:
+            # the wrong state ran (expiry decisions are adopted from the implementation, so this is not timing)
+            props = {"C04"}
         elif preg == oreg:
-            props = {"C01"}      # only the default state's presence differs
-        else:
-            props = {"C02"} if pred.expiry_involved else {"C04"}
-            if pred.start_iteration:
-                props.add("C04")
+            props = {"C01"}         # only the default state's presence differs
+        # same first state, different continuation of a next_state_now chain: decided by the direct count rule
         div.append({"kind": "fn-seq", "props": props,
                     "detail": f"expected state functions {pn}, observed {on}"})
         return div
@@ -479,6 +482,7 @@ class Driver:
                     self.ev("preexisting-duration")
         self.consec_cycles = 0
         self.violation = None
+        self.done_after_engage = False
 
     def ev(self, k, n=1):
         self.events[k] = self.events.get(k, 0) + n
@@ -512,6 +516,7 @@ class Driver:
             except Exception as e:  # noqa
                 exc = e
             self.model.op_engage(op[1], op[2])
+            self.done_after_engage = False
             if op[2]:
                 self.ev("op-engage-force")
             if op[1] is not None and (op[2] or was_stopped):
@@ -523,6 +528,7 @@ class Driver:
             except Exception as e:  # noqa
                 exc = e
             self.model.op_done()
+            self.done_after_engage = True
             self.ev("op-" + k)
             if was_running:
                 self.stats["stop_causes"].add(k)
@@ -582,8 +588,26 @@ class Driver:
         obs_calls = [(e[1], e[2]) for e in log if e[0] == "state"]
         n_done = sum(1 for e in log if e[0] == "done")
         dur = self.dur.__getitem__
-        survivors = []
-        failures = []
+        # ---- direct C01 clauses, judged on the observation alone
+        n_now = sum(1 for e in log if e[0] == "now")
+        direct = []
+        if req_before and not self.done_after_engage and not any(e[0] == "done" for e in log):
+            if len(obs_calls) != 1 + n_now:
+                direct.append({"kind": "fn-count", "props": {"C01"},
+                               "detail": f"engage() was called and done() was not: {len(obs_calls)} state functions ran "
+                                         f"({[c[0] for c in obs_calls]}) with {n_now} next_state_now() calls"})
+        if not req_before:
+            for name, _ in obs_calls:
+                st = self.eff.get(name)
+                if st is not None and st["kind"] != "default" and not st["must_finish"]:
+                    direct.append({"kind": "ran-unengaged", "props": {"C01"},
+                                   "detail": f"regular state {name} (not must_finish) ran in an iteration without engage()"})
+                    break
+        self.acc.checks += 2
+        if direct:
+            return self._diverge(direct, ["execute"], obs=obs_calls, now=now)
+        branches = []
+        stopped_before = not running_before and not req_before
         for mm in self.model.members:
             stack = [[]]
             while stack:
@@ -594,23 +618,50 @@ class Driver:
                     stack.append(ch + [1])
                     stack.append(ch + [0])
                     continue
+                pred.stopped_before = stopped_before
                 div = compare(pred, obs_calls, n_done, now, m2, self.auto)
-                if not div:
-                    survivors.append((pred, m2))
-                else:
-                    failures.append((pred, div))
+                branches.append((pred, m2, div))
         self.acc.checks += 1 + 3 * len(obs_calls)
-        if not survivors:
-            # a branch whose only divergences belong to other properties' clauses is not evidence against
-            # this property: the case ends there (counted), no verdict
-            mine = [f for f in failures if any(self.pid in d["props"] for d in f[1])]
-            if len(mine) < len(failures):
-                other = [f for f in failures if f not in mine][0]
-                for d in other[1]:
+        consistent = [b for b in branches if not b[2]]          # explain everything that was observed
+        obs_regular = [c for c in obs_calls if self.eff[c[0]]["kind"] != "default"]
+        clean = [b for b in consistent if not b[0].c02]
+        if self.pid == "C02":
+            # expiry decisions were adopted from the implementation; C02 judges them.  A branch that matches a
+            # non-empty observation completely identifies the implementation's timeline; an empty observation
+            # identifies nothing, and then a timing explanation only counts if nothing else explains it.
+            innocent = [b for b in branches if not b[0].c02 and not any("C02" in d["props"] for d in b[2])]
+            if clean:
+                survivors = [(b[0], b[1]) for b in clean]
+            elif consistent and (obs_regular or not innocent):
+                pred = consistent[0][0]
+                return self._diverge([{"kind": "expiry-timing", "props": {"C02"}, "detail": pred.c02[0]}],
+                                     ["execute"], pred=pred, obs=obs_calls, now=now)
+            elif innocent:
+                for d in innocent[0][2]:
+                    self.ev("divergence-" + d["kind"])
+                self.ev("divergence-owned-by-other-property" if innocent[0][2] else "ambiguous-empty-observation")
+                return False
+            else:
+                pred, _, div = min(branches, key=lambda b: len(b[2]))
+                div = div or [{"kind": "expiry-timing", "props": {"C02"}, "detail": pred.c02[0]}]
+                return self._diverge(div, ["execute"], pred=pred, obs=obs_calls, now=now)
+        elif consistent:
+            # other properties are judged on the implementation's own timeline, whatever C02 thinks of it
+            if not clean:
+                self.ev("timing-adopted-against-C02")
+            survivors = [(b[0], b[1]) for b in consistent]
+            survivors.sort(key=lambda x: len(x[0].c02))
+        else:
+            # no reading of the statements explains the observation.  It is evidence against this property only
+            # if every branch diverges in one of this property's clauses.
+            mine = [b for b in branches if any(self.pid in d["props"] for d in b[2])]
+            if len(mine) < len(branches):
+                other = [b for b in branches if b not in mine][0]
+                for d in other[2]:
                     self.ev("divergence-" + d["kind"])
                 self.ev("divergence-owned-by-other-property")
                 return False
-            pred, div = min(failures, key=lambda f: len(f[1]))
+            pred, _, div = min(branches, key=lambda b: len(b[2]))
             return self._diverge(div, ["execute"], pred=pred, obs=obs_calls, now=now)
         pred = survivors[0][0]
         members, seen = [], set()
